@@ -171,11 +171,11 @@ func InitializeProcesses(processes []*Process, globalEnv *GlobalEnvironment, sub
 }
 
 func (re *RuntimeEnvironment) ProcessCount() uint64 {
-	return re.processCount
+	return atomic.LoadUint64(&re.processCount)
 }
 
 func (re *RuntimeEnvironment) DeadProcessCount() uint64 {
-	return re.deadProcessCount
+	return atomic.LoadUint64(&re.deadProcessCount)
 }
 
 // Create the initial channels required. E.g. for a process prc[c1], a channel with Ident: c1 is created
